@@ -226,11 +226,11 @@ ProceedRule == \A x \in IS : /\ (why[x] = "all") => Len(msgs[x]) = N
                              /\ (why[x] = "timeout") => fired[x]
                              /\ (prop[x] # NoProp) => why[x] # None
 \* what is proposed is the result function applied to the messages held at that time; it satisfies the documented rules
-ProposalOK == \A x \in IS : prop[x] # NoProp =>
-                 /\ CalcErr(prop[x].msgs) = None
+ProposalOK == \A x \in IS : prop[x] # NoProp => CalcErr(prop[x].msgs) = None /\ prop[x].msgs[1].peer = x[1]
+\* (expensive: evaluated by the trace spec on what the implementation proposed, and by the thorough design check)
+ProposalCalcOK == \A x \in IS : prop[x] # NoProp =>
                  /\ prop[x].topics = CalcTopics(prop[x].msgs)
                  /\ CalcOK(prop[x].msgs, prop[x])
-                 /\ prop[x].msgs[1].peer = x[1]
 \* same inputs (as a set) => same result on every node
 SameInputsSameResult == \A x, y \in IS : (prop[x] # NoProp /\ prop[y] # NoProp /\ Range(prop[x].msgs) = Range(prop[y].msgs))
                                             => prop[x].topics = prop[y].topics
